@@ -5,7 +5,7 @@
    indices included), tuple repetition, `raise`, `assert` and integer arithmetic mean.
    Python ints are unbounded: Z.  Strings are an abstract type with a boolean equality and an
    emptiness test, exactly like the keys of model/Lookup.v. *)
-From Coq Require Export ZArith List Bool.
+From Coq Require Export String ZArith List Bool.
 Export ListNotations.
 Local Open Scope Z_scope.
 
@@ -125,3 +125,97 @@ Definition deque_make (items : list A) (maxlen : Z) : outcome (list A) :=
   if maxlen <? 0 then Exn ValueError else Val (lastn (Z.to_nat maxlen) items).
 
 End Seq.
+
+(* ---- str: the operations the translated source may use on strings, as one structure.  The generated
+   files are parametric in it (`Context (S : strops)`); the tie files instantiate it where the model is
+   concrete about strings (lists of code points) and leave it abstract where the model is. *)
+Record strops := {
+  carrier : Type;
+  s_eqb : carrier -> carrier -> bool;          (* a == b *)
+  s_is_empty : carrier -> bool;                (* not a *)
+  s_empty : carrier;                           (* "" *)
+  s_add : carrier -> carrier -> carrier;       (* a + b *)
+  s_rpartition : carrier -> carrier -> outcome (carrier * carrier * carrier);   (* a.rpartition(sep) *)
+  s_lit : list Z -> carrier                    (* a literal, by code points *)
+}.
+
+(* ---- str as a list of code points: the concrete operations *)
+Section ListStr.
+Context {A : Type} (eqA : A -> A -> bool).
+
+Fixpoint list_eqb (a b : list A) : bool :=
+  match a, b with
+  | [], [] => true
+  | x :: a', y :: b' => eqA x y && list_eqb a' b'
+  | _, _ => false
+  end.
+
+Fixpoint is_prefix (p s : list A) : bool :=
+  match p, s with
+  | [], _ => true
+  | x :: p', y :: s' => eqA x y && is_prefix p' s'
+  | _ :: _, [] => false
+  end.
+
+(* the LAST occurrence of sep (non-empty) in s: what is before it and what is after it *)
+Fixpoint rpart (sep s : list A) : option (list A * list A) :=
+  match s with
+  | [] => None
+  | c :: s' =>
+    match rpart sep s' with
+    | Some (a, b) => Some (c :: a, b)
+    | None => if is_prefix sep s then Some ([], skipn (length sep) s) else None
+    end
+  end.
+
+(* str.rpartition(sep): (before, sep, after) for the last occurrence, ("", "", s) when there is none;
+   an empty separator is a ValueError *)
+Definition py_rpartition (s sep : list A) : outcome (list A * list A * list A) :=
+  match sep with
+  | [] => Exn ValueError
+  | _ => match rpart sep s with
+         | Some (a, b) => Val (a, sep, b)
+         | None => Val ([], [], s)
+         end
+  end.
+
+(* set[str] as a duplicate-free list (insertion order is not observable through add / len / clear) *)
+Fixpoint mem (x : A) (l : list A) : bool :=
+  match l with [] => false | y :: l' => eqA x y || mem x l' end.
+End ListStr.
+
+Definition set_add {K} (eqb : K -> K -> bool) (k : K) (l : list K) : list K := if mem eqb k l then l else k :: l.
+
+(* ---- protobuf message objects, as far as the translated source builds them: constructor calls with
+   keyword arguments and attribute assignment.  Presence, defaults and the wire format are not modelled
+   here (the model's Wire.v does that, tied by the correspondence check) -- only which fields were given
+   which values, with the oneof rule (setting a member clears its siblings). *)
+Inductive pbval (K : Type) :=
+| PInt (z : Z) | PBool (b : bool) | PStr (s : K)
+| PMsg (name : string) (fields : list (string * pbval K)).
+Arguments PInt {K} z.
+Arguments PBool {K} b.
+Arguments PStr {K} s.
+Arguments PMsg {K} name fields.
+
+Definition msg_fields {K} (m : pbval K) : list (string * pbval K) :=
+  match m with PMsg _ fs => fs | _ => [] end.
+
+Definition msg_name {K} (m : pbval K) : string :=
+  match m with PMsg n _ => n | _ => EmptyString end.
+
+Fixpoint drop_fields {K} (names : list string) (fs : list (string * pbval K)) : list (string * pbval K) :=
+  match fs with
+  | [] => []
+  | (n, v) :: fs' => if existsb (String.eqb n) names then drop_fields names fs' else (n, v) :: drop_fields names fs'
+  end.
+
+(* m.f = v where f belongs to the oneof group `group` (f itself included; [f] for a plain field) *)
+Definition msg_set {K} (group : list string) (f : string) (v : pbval K) (m : pbval K) : pbval K :=
+  PMsg (msg_name m) (drop_fields group (msg_fields m) ++ [(f, v)]).
+
+Fixpoint msg_get {K} (f : string) (fs : list (string * pbval K)) : option (pbval K) :=
+  match fs with
+  | [] => None
+  | (n, v) :: fs' => if String.eqb n f then Some v else msg_get f fs'
+  end.
